@@ -60,6 +60,13 @@ Theorem C04_key_table : forall (w rest : list N),
   prod_decode (w ++ rest) = (prod_denote (RLit w) :: fst (prod_decode rest), snd (prod_decode rest)).
 Proof. intros w rest Hl Hs. exact (decode_single _ _ rest (single_literal w Hl Hs)). Qed.
 
+(* 4b. the table names the xterm PC-style / VT220-style sequences as the protocol documents do:
+   cursor / editing / function keys with every modifier mask, Alt+letter, Alt+digit, Ctrl+letter *)
+Theorem C04_xterm_keys : forall (k : kname) (mods : N) (alt_form : bool) (rest : list N),
+  wf decmode_all prod_key_table (RXterm k mods alt_form) = true ->
+  prod_decode (print (RXterm k mods alt_form) ++ rest) = (EKey k mods :: fst (prod_decode rest), snd (prod_decode rest)).
+Proof. exact xterm_keys_decode. Qed.
+
 (* 5. xterm / fixterms modifier convention over the whole table: CSI n ; m ~ and CSI 1 ; m X name
    the key of the unmodified sequence with modifier mask m - 1 *)
 Theorem C04_key_modifiers : forallb mod_entry_ok prod_key_table = true.
@@ -90,12 +97,12 @@ Check C04_concat_partial : forall (rs : list report) (rest : list N),
 Definition ex_reports : list report :=
   [RMouse MWheelUp 5 true false 65534 0; RCursor 0 0; RChar 8364; RLit [27; 91; 49; 53; 59; 54; 126];
    RDecMode 2004 1; RKittyKey (KF 35) 255; RDevAttrs [1; 2; 62]; RSize 24 80 480 1280;
-   RPaste [104; 105; 226; 130; 172]; RKeyLevel 5; RLit [27; 91; 49; 59; 53; 82]].
+   RPaste [104; 105; 226; 130; 172]; RKeyLevel 5; RLit [27; 91; 49; 59; 53; 82]; RXterm (KF 12) 7 false; RXterm KHome 0 true].
 Example C04_nonvacuous :
   forallb (fun r => proved_family r && prod_wf r) ex_reports = true
   /\ map prod_denote ex_reports
      = [EMouse MWheelUp 261 65534 0; ECursor 0 0; EKey (KChar 8364) 0; EKey (KF 5) 5; EDecMode 2004 1;
         EKey (KF 35) 255; EDevAttrs [1; 2; 62]; ESize 24 80 480 1280; EPaste [104; 105; 226; 130; 172];
-        EKeyLevel 5; EKey (KF 3) 4]
+        EKeyLevel 5; EKey (KF 3) 4; EKey (KF 12) 7; EKey KHome 0]
   /\ length prod_key_table = 367%nat.
 Proof. split; [vm_compute; reflexivity|]. split; vm_compute; reflexivity. Qed.
